@@ -18,12 +18,14 @@ def settableSlots : Kind → List Nat
   | .ghes => [2, 3, 4, 5]
   | .ghesv2 => [2, 3, 4, 5, 25, 26]
   | .notif => [2, 3, 4, 5, 6, 7, 8]
+  | .proc => [0, 1, 2]
   | _ => []
 
 /-- arguments of one builder call are within their Rust types -/
 def optWf (k : Kind) (o : Opt) : Bool :=
   let v := o.arg
   match k, o.name with
+  | .proc, "set" => (settableSlots k).contains (v 0) && v 1 < 2 ^ 32
   | _, "set" => (settableSlots k).contains (v 0)
   | .gicc, "pi" | .gicc, "mi" => v 1 < 2
   | .cache, "alloc" => v 0 < 3
